@@ -264,7 +264,7 @@ func genC09(g *Gen, tier string, w *bufio.Writer) {
 		}
 	}
 	// random compositions
-	n := tierN(tier, 1500, 40000)
+	n := tierN(tier, 4000, 40000)
 	o := TyOpts{}
 	for i := 0; i < n; i++ {
 		t := g.RandTy(1+g.Intn(3), o)
